@@ -215,6 +215,16 @@ def edge_space(tier, phase):
     out = d_space(tier, phase)
     out += [(x, y) for x in low for y in low]
     out += [(x, y) for x in three for y in low] + [(x, y) for x in low for y in three]
+    # near-coincident boundaries: the estimate's inner boundaries sit 2^-7 s (7.8 ms) before / after the reference's,
+    # so that a closeness test that is relative to absolute time behaves differently after a large common shift
+    eps = Fr(1, 128)
+    for x in three[:60]:
+        ivs = x[0]
+        for sgn in (1, -1):
+            b = [Fr(ivs[0][0])] + [Fr(e) + sgn * eps for (_, e) in ivs[:-1]] + [Fr(ivs[-1][1])]
+            y = (tuple((float(b[i]), float(b[i + 1])) for i in range(len(ivs))), x[1])
+            out.append((x, y))
+            out.append((y, x))
     return out
 
 
@@ -362,7 +372,7 @@ TASK.notes = NOTES
 # ---------------------------------------------------------------------------------- edge relations (C08)
 def _shift(state):
     out = []
-    for d in (1 / 16.0, 1000.0):
+    for d in (1 / 16.0, 1000.0, 4096.0):
         def mv(s, d=d):
             if not s:
                 return s
